@@ -22,9 +22,16 @@ func WithImporter(importer importer.Importer) Option {
 	}
 }
 
-// WithGlobals provides global variables with the given names.
+// WithGlobals provides global variables with the given names. The globals
+// given in one call (New, RunCode) are combined; they replace the globals of
+// earlier calls, so that a VM reused under another configuration does not keep
+// what the earlier configuration provided.
 func WithGlobals(globals map[string]any) Option {
 	return func(vm *VirtualMachine) {
+		if !vm.globalsGiven {
+			vm.globalsGiven = true
+			vm.inputGlobals = map[string]any{}
+		}
 		for name, value := range globals {
 			vm.inputGlobals[name] = value
 		}
